@@ -57,6 +57,7 @@ fn main() {
         // exact comparison with the model's frames
         let model = c["frames"].as_array().unwrap();
         let mut diff: Option<String> = None;
+        let mut diff_trust: Option<String> = None;
         match &obs {
             Err(p) => diff = Some(format!("panic:{}", p)),
             Ok(o) => {
@@ -64,6 +65,7 @@ fn main() {
                 for (k, (r, m)) in o.frames.iter().zip(model.iter()).enumerate() {
                     if diff.is_some() { break; }
                     let mvalid: Vec<&str> = m["valid"].as_array().unwrap().iter().map(|v| v.as_str().unwrap()).collect();
+                    diff_trust = m["trust"].as_str().map(|x| x.to_string());
                     if r.ip != amd64_val(m["ip"].as_i64().unwrap()) { diff = Some(format!("ip@{}", k.min(9))); }
                     else if r.instr != amd64_val(m["instr"].as_i64().unwrap()) { diff = Some("instr".into()); }
                     else if r.sp != amd64_val(m["sp"].as_i64().unwrap()) { diff = Some("sp".into()); }
@@ -81,7 +83,10 @@ fn main() {
             let kind = if built { "walk-built" } else { "walk-any" };
             let detail = json!({"arch": archname, "mem": c["mem"], "rule": c["rule"], "context": f0, "model_frames": model,
                                 "real_frames": obs.as_ref().ok().map(|o| o.frames.iter().map(|f| json!({"ip": f.ip, "instr": f.instr, "sp": f.sp, "fp": f.regs[spec.fp], "trust": f.trust})).collect::<Vec<_>>())});
-            if built { rep.mismatch(&format!("{}:{}:{}", kind, archname, d), detail); } else { rep.drift(json!({"what": d, "detail": detail})); }
+            let strict = std::env::var("VERIF_STRICT_CFI_REGS").is_ok() && diff_trust.as_deref() == Some("cfi") && matches!(d.as_str(), "fp-validity" | "fp-value");
+            if built { rep.mismatch(&format!("{}:{}:{}", kind, archname, d), detail); }
+            else if strict { rep.mismatch(&format!("cfi-real-context:{}:{}", archname, d), detail); }
+            else { rep.drift(json!({"what": d, "detail": detail})); }
         } else if built && rep.samples.len() < 5 && model.len() >= 4 {
             rep.sample(json!({"arch": archname, "stack_words": c["mem"], "chain": c["expect"]}));
         }
@@ -139,12 +144,14 @@ fn arm_family(archname: &str, osname: &str, path: &str, tracepath: &str) {
         rep.evaluations += 1;
         let model = c["frames"].as_array().unwrap();
         let mut diff: Option<String> = None;
+        let mut diff_trust: Option<String> = None;
         match &obs {
             Err(pn) => diff = Some(format!("panic:{}", pn)),
             Ok(o) => {
                 if o.frames.len() != model.len() { diff = Some("frame-count".into()); }
                 for (k, (r, m)) in o.frames.iter().zip(model.iter()).enumerate() {
                     if diff.is_some() { break; }
+                    diff_trust = m["trust"].as_str().map(|x| x.to_string());
                     let mvalid: Vec<&str> = m["valid"].as_array().unwrap().iter().map(|v| v.as_str().unwrap()).collect();
                     let mfp = mvalid.contains(&"fp") || mvalid.contains(&"fpn");
                     let cs = &r.regs[if is64 { "x19" } else { "r4" }];
@@ -168,7 +175,14 @@ fn arm_family(archname: &str, osname: &str, path: &str, tracepath: &str) {
             let kind = if built { "walk-built" } else { "walk-any" };
             let detail = json!({"arch": archname, "os": osname, "mem": c["mem"], "rule": c["rule"], "context": f0, "model_frames": model,
                                 "real_frames": obs.as_ref().ok().map(|o| o.frames.iter().map(|f| json!({"ip": f.ip, "instr": f.instr, "sp": f.sp, "regs": format!("{:?}", f.regs), "trust": f.trust})).collect::<Vec<_>>())});
-            if built { rep.mismatch(&format!("{}:{}:{}", kind, archname, d), detail); } else { rep.drift(json!({"what": d, "detail": detail})); }
+            // VERIF_STRICT_CFI_REGS: which registers a frame recovered by STACK CFI knows (forwarded only when known in the callee, set from
+            // their rules otherwise) is the documented semantics of STACK CFI through a real context (C06): there a disagreement is a
+            // violation, not drift
+            let strict = std::env::var("VERIF_STRICT_CFI_REGS").is_ok() && diff_trust.as_deref() == Some("cfi")
+                && matches!(d.as_str(), "callee-saved-validity" | "callee-saved-value" | "fp-validity" | "fp-value" | "lr-validity");
+            if built { rep.mismatch(&format!("{}:{}:{}", kind, archname, d), detail); }
+            else if strict { rep.mismatch(&format!("cfi-real-context:{}:{}", archname, d), detail); }
+            else { rep.drift(json!({"what": d, "detail": detail})); }
         } else if built && rep.samples.len() < 5 && model.len() >= 4 {
             rep.sample(json!({"arch": archname, "os": osname, "stack_words": c["mem"], "chain": c["expect"]}));
         }
@@ -302,6 +316,7 @@ fn mips(archname: &str, path: &str, tracepath: &str) {
         rep.evaluations += 1;
         let model = c["frames"].as_array().unwrap();
         let mut diff: Option<String> = None;
+        let mut diff_trust: Option<String> = None;
         match &obs {
             Err(pn) => diff = Some(format!("panic:{}", pn)),
             Ok(o) => {
@@ -309,6 +324,7 @@ fn mips(archname: &str, path: &str, tracepath: &str) {
                 for (k, (r, m)) in o.frames.iter().zip(model.iter()).enumerate() {
                     if diff.is_some() { break; }
                     let mvalid: Vec<&str> = m["valid"].as_array().unwrap().iter().map(|v| v.as_str().unwrap()).collect();
+                    diff_trust = m["trust"].as_str().map(|x| x.to_string());
                     if r.ip != m["ip"].as_u64().unwrap() { diff = Some(format!("ip@{}", k.min(9))); }
                     else if r.instr != m["instr"].as_u64().unwrap() { diff = Some("instr".into()); }
                     else if r.sp != m["sp"].as_u64().unwrap() { diff = Some("sp".into()); }
@@ -329,7 +345,11 @@ fn mips(archname: &str, path: &str, tracepath: &str) {
             let kind = if built { "walk-built" } else { "walk-any" };
             let detail = json!({"arch": archname, "mem": c["mem"], "rule": c["rule"], "context": f0, "model_frames": model,
                                 "real_frames": obs.as_ref().ok().map(|o| o.frames.iter().map(|f| json!({"ip": f.ip, "instr": f.instr, "sp": f.sp, "regs": format!("{:?}", f.regs), "trust": f.trust})).collect::<Vec<_>>())});
-            if built { rep.mismatch(&format!("{}:{}:{}", kind, archname, d), detail); } else { rep.drift(json!({"what": d, "detail": detail})); }
+            let strict = std::env::var("VERIF_STRICT_CFI_REGS").is_ok() && diff_trust.as_deref() == Some("cfi")
+                && matches!(d.as_str(), "callee-saved-validity" | "callee-saved-value" | "fp-validity" | "fp-value" | "ra-validity");
+            if built { rep.mismatch(&format!("{}:{}:{}", kind, archname, d), detail); }
+            else if strict { rep.mismatch(&format!("cfi-real-context:{}:{}", archname, d), detail); }
+            else { rep.drift(json!({"what": d, "detail": detail})); }
         } else if built && rep.samples.len() < 5 && model.len() >= 4 {
             rep.sample(json!({"arch": archname, "stack_words": c["mem"], "chain": c["expect"]}));
         }
